@@ -4,6 +4,7 @@ import vlib
 
 PROP = "C13"
 PROPS_FILES = ["Nic/Props/C13.lean"]
+TIMING_SENSITIVE = True      # real polling intervals and timeouts: a disagreement must reproduce when the case is run alone
 HARNESS = "vh-nginx"
 UNSHARE = True        # private mount namespace providing a fake /usr/sbin/nginx for LocalManager.Reload
 PARALLEL = 12
